@@ -839,13 +839,13 @@ def run(ctx):
         ctx.mark_broken('table:TableauRules', err['TableauRules'])
     ctx.set_obligations(coq.compile_props('C13'))
     quick = ctx.tier == 'quick'
-    walk_stream(ctx, cirq, 70 if quick else 900)
-    then_stream(ctx, cirq, 60 if quick else 600)
+    walk_stream(ctx, cirq, 160 if quick else 1500)
+    then_stream(ctx, cirq, 120 if quick else 1000)
     group_1q(ctx, cirq)
-    group_2q(ctx, cirq, exhaustive=not quick, sample=120)
-    group_nq(ctx, cirq, 25 if quick else 250)
-    decompose_stream(ctx, cirq, 40 if quick else 400)
-    e2e_stream(ctx, cirq, 25 if quick else 250)
+    group_2q(ctx, cirq, exhaustive=not quick, sample=250)
+    group_nq(ctx, cirq, 40 if quick else 300)
+    decompose_stream(ctx, cirq, 80 if quick else 600)
+    e2e_stream(ctx, cirq, 45 if quick else 300)
     int_seed_stream(ctx, cirq)
 
 
